@@ -114,7 +114,7 @@ func tlsExporterVsCollector(srv func(*pki) *certs.Pair, serverName string, clien
 		}
 		coll, err := lib.StartCollector(in)
 		if err != nil {
-			return "harness", "collector: " + err.Error()
+			return "collector-did-not-start", err.Error()
 		}
 		defer coll.Stop(20 * time.Second)
 		domain := uint32(0xC1800000 + k)
@@ -164,7 +164,7 @@ func clientAuthDistinctCAs(bundle bool, cli func(*pki) *certs.Pair, wantDelivery
 		coll, err := lib.StartCollector(collector.CollectorInput{Address: host(v6), Protocol: "tcp", MaxBufferSize: 65535, IsIPv6: v6, IsEncrypted: true,
 			ServerCert: serverPEM, ServerKey: p.srvTrusted.KeyPEM, CACert: p.clientCA.CertPEM})
 		if err != nil {
-			return "harness", "collector: " + err.Error()
+			return "collector-did-not-start", err.Error()
 		}
 		defer coll.Stop(20 * time.Second)
 		domain := uint32(0xC1850000 + k)
@@ -240,7 +240,7 @@ func tlsClientVsCollector(maxVer uint16, want bool) func(*hx.Ctx, int, *pki, boo
 		coll, err := lib.StartCollector(collector.CollectorInput{Address: host(v6), Protocol: "tcp", MaxBufferSize: 65535, IsIPv6: v6, IsEncrypted: true,
 			ServerCert: p.srvTrusted.CertPEM, ServerKey: p.srvTrusted.KeyPEM})
 		if err != nil {
-			return "harness", err.Error()
+			return "collector-did-not-start", err.Error()
 		}
 		defer coll.Stop(20 * time.Second)
 		pool := x509.NewCertPool()
@@ -281,7 +281,7 @@ func tlsSequenceOnOneCollector() func(*hx.Ctx, int, *pki, bool) (string, string)
 		coll, err := lib.StartCollector(collector.CollectorInput{Address: host(v6), Protocol: "tcp", MaxBufferSize: 65535, IsIPv6: v6, IsEncrypted: true,
 			ServerCert: p.srvTrusted.CertPEM, ServerKey: p.srvTrusted.KeyPEM})
 		if err != nil {
-			return "harness", err.Error()
+			return "collector-did-not-start", err.Error()
 		}
 		defer coll.Stop(20 * time.Second)
 		connect := func(ca []byte, serverName string, domain uint32) (*exporter.ExportingProcess, error) {
@@ -324,7 +324,7 @@ func plainExporterVsEncryptedCollector(proto string) func(*hx.Ctx, int, *pki, bo
 		coll, err := lib.StartCollector(collector.CollectorInput{Address: host(v6), Protocol: proto, MaxBufferSize: 65535, IsIPv6: v6, IsEncrypted: true,
 			ServerCert: p.srvTrusted.CertPEM, ServerKey: p.srvTrusted.KeyPEM})
 		if err != nil {
-			return "harness", err.Error()
+			return "collector-did-not-start", err.Error()
 		}
 		defer coll.Stop(20 * time.Second)
 		domain := uint32(0xC1820000 + k)
@@ -416,7 +416,7 @@ func dtlsExporterVsCollector(srv func(*pki) *certs.Pair, serverName string, want
 		s := srv(p)
 		coll, err := lib.StartCollector(collector.CollectorInput{Address: host(v6), Protocol: "udp", MaxBufferSize: 65535, IsIPv6: v6, IsEncrypted: true, ServerCert: s.CertPEM, ServerKey: s.KeyPEM})
 		if err != nil {
-			return "harness", "collector: " + err.Error()
+			return "collector-did-not-start", err.Error()
 		}
 		defer coll.Stop(20 * time.Second)
 		domain := uint32(0xC1830000 + k)
